@@ -243,6 +243,32 @@ def firstDeposit (cfg : Config) (tr : List (Step C P)) (cid : C) (id : Nat) : Op
     | .deliver sender c p => if sender = id ∧ c = cid ∧ id ∈ cfg.members then some p else none
     | _ => none
 
+/-- does the locked scan of the receive attached to `cid`, taken in state `s`, collect the payload
+of sender `id`? -/
+def collects (s : State C P) (cid : C) (id : Nat) : Bool :=
+  match s.waiter cid with
+  | some w => decide (w.phase = .running) && (s.poison cid).isNone && isComplete s cid w.exp && decide (id ∈ w.exp)
+  | none => false
+
+/-- ghost: the first payload `id` (a member) deposited under exactly `cid` since the last
+completed collection of `(cid, id)`; `s` is the state in which the step is taken -/
+def sinceStep (cfg : Config) (cid : C) (id : Nat) (s : State C P) (acc : Option P) : Step C P → Option P
+  | .deliver sender c p =>
+    if sender = id ∧ c = cid ∧ id ∈ cfg.members then
+      (match acc with
+       | some q => some q
+       | none => some p)
+    else acc
+  | .scan c => if c = cid ∧ collects s cid id = true then none else acc
+  | _ => acc
+
+def sinceRun (cfg : Config) (cid : C) (id : Nat) (tr : List (Step C P)) : State C P × Option P :=
+  tr.foldl (fun sa st => (step cfg sa.1 st, sinceStep cfg cid id sa.1 sa.2 st)) (init, none)
+
+/-- the payload the property demands without the one-exchange hypothesis -/
+def firstSince (cfg : Config) (tr : List (Step C P)) (cid : C) (id : Nat) : Option P :=
+  (sinceRun cfg cid id tr).2
+
 /-! ### mailbox objects (`boxes : map[string]*mailbox`)
 
 Which keys the Go map `boxes` holds is not part of `State` (no result of `ReceiveFrom` depends on
@@ -319,6 +345,8 @@ structure L2 (C P : Type) where
   boxes : List C := []
   /-- `(buffered, number of mailbox objects)` after every event; newest first -/
   obs : List (Nat × Nat) := []
+  /-- index of the event during which `ErrReceiveBufferFull` was latched -/
+  fullAt : Option Nat := none
 
 def doStep (cfg : Config) (l : L2 C P) (st : Step C P) : L2 C P :=
   { l with core := step cfg l.core st, steps := st :: l.steps, boxes := boxesStep cfg l.core l.boxes st }
@@ -400,7 +428,10 @@ def event (cfg : Config) (k : Nat) (l : L2 C P) : Event C P → L2 C P
 def runEvents (cfg : Config) (evs : List (Event C P)) : L2 C P :=
   (evs.foldl (fun (acc : Nat × L2 C P) ev =>
     let l := event cfg acc.1 acc.2 ev
-    (acc.1 + 1, { l with obs := (l.core.buffered, l.boxes.length) :: l.obs })) (0, {})).2
+    let fullAt := match l.fullAt with
+      | some k => some k
+      | none => if l.core.fatal = some .full then some acc.1 else none
+    (acc.1 + 1, { l with obs := (l.core.buffered, l.boxes.length) :: l.obs, fullAt := fullAt })) (0, {})).2
 
 end Sched
 
